@@ -12,8 +12,10 @@ inside eigenbasis_of(H), inside the eigenbasis of an unrelated operator and nest
 matrix elements <= 1, 1e-12 on populations).
 Monitors: finite, Hermitian, positive semidefinite, unit trace, Boltzmann ratios in the defining basis, T = 0 populates
 a lowest state, same physical state inside and outside a context (weak / strong), oracle hypotheses on numpy.exp,
-orthogonality of the eigh transformation; Molecule / Aggregate.get_thermal_ReducedDensityMatrix and
-get_excited_density_matrix on real systems.
+orthogonality of the eigh transformation; Molecule.get_thermal_ReducedDensityMatrix on molecules with exactly T = 0 (no
+environment), displaced ground-state surfaces (lowest eigenstate is not basis state 0), requested outside and inside the basis
+contexts of H and of unrelated operators: T = 0 gives the lowest eigenstate of H, the same state in any context (also tied to
+Model.C14 request OpenSys for n <= 6); Aggregate.get_thermal_ReducedDensityMatrix and get_excited_density_matrix on real systems.
 """
 import os
 import sys
@@ -162,10 +164,14 @@ def gen_mol(r, k):
     g = r.choice([0.0, 0.0, 4000.0, -7000.0])
     en = [g] + sorted(g + r.uniform(8000, 20000) for _ in range(nst - 1))
     mode = None
-    if r.random() < 0.6:
-        mode = {"freq": r.choice([100.0, 300.0, 900.0]), "hr": r.choice([0.1, 0.5]), "nmax": r.choice([2, 3, 4])}
-    temp = r.choice([1e-3, 1.0, 5.0, 20.0, 77.0, 300.0, 2000.0, None])
-    return {"kind": "mol", "e": en, "mode": mode, "temp": temp, "dip": [r.uniform(-2, 2), r.uniform(-2, 2), 0.5]}
+    if r.random() < 0.7:
+        # shift0: displacement of the GROUND-state potential surface: the lowest eigenstate of H is then not basis state 0
+        mode = {"freq": r.choice([100.0, 300.0, 900.0]), "hr": r.choice([0.1, 0.5]), "nmax": r.choice([2, 2, 3, 4]),
+                "shift0": r.choice([0.0, 0.0, 0.3, 0.6, -0.8])}
+    # None: no environment on the 0->1 transition, i.e. exactly T = 0 (the default of the package)
+    temp = r.choice([None, None, None, None, 1e-3, 1.0, 5.0, 20.0, 77.0, 300.0, 2000.0])
+    return {"kind": "mol", "e": en, "mode": mode, "temp": temp, "dip": [r.uniform(-2, 2), r.uniform(-2, 2), 0.5],
+            "ctx": r.choice(["none", "none", "X", "X", "H", "XH"]), "seed": r.randrange(10 ** 6)}
 
 
 # ------------------------------------------------------------------ building systems
@@ -601,11 +607,8 @@ def reorg_list(agg, n, start):
     return re
 
 
-def run_mol(chk, c):
-    import numpy
+def build_mol(c):
     import quantarhei as qr
-    from quantarhei.core.units import kB_intK
-    reset_manager()
     ta = time_axis()
     with qr.energy_units("1/cm"):
         mol = qr.Molecule(list(c["e"]))
@@ -620,29 +623,115 @@ def run_mol(chk, c):
             for k in range(len(c["e"])):
                 md.set_nmax(k, c["mode"]["nmax"])
             md.set_HR(1, c["mode"]["hr"])
-    what = "Molecule.get_thermal_ReducedDensityMatrix at %r K" % (c["temp"],)
+            if c["mode"].get("shift0"):
+                md.set_shift(0, c["mode"]["shift0"])
+    return mol
+
+
+def mol_request(c, ctx, observe):
+    """Molecule.get_thermal_ReducedDensityMatrix requested in the basis context ctx (fresh molecule)"""
+    import numpy
+    import quantarhei as qr
+    reset_manager()
+    mol = build_mol(c)
+    H = mol.get_Hamiltonian()
+    n = H.dim
+    Hsite = numpy.array(H.data, dtype=float).copy()
+    ops = {"H": H, "X": None}
+    if "X" in ctx:
+        rs = numpy.random.RandomState(c.get("seed", 1))
+        a = rs.randn(n, n)
+        ops["X"] = qr.Hamiltonian(data=a + a.T)
+    obs = {"n": n, "Hsite": Hsite, "T": mol.get_temperature()}
+    with contextlib.ExitStack() as st:
+        for ch in (ctx if ctx != "none" else ""):
+            st.enter_context(qr.eigenbasis_of(ops[ch]))
+        if observe:
+            obs["Hcur"] = numpy.array(H.data, dtype=float).copy()
+            obs["U"] = numpy.array(H.get_diagonalization_matrix(), dtype=float)
+            obs["U1"] = numpy.linalg.inv(obs["U"])
+            with qr.eigenbasis_of(H):
+                obs["hexc"] = numpy.real(numpy.diag(H.data)).copy()
+        with record_exp() as rec:
+            try:
+                rho = mol.get_thermal_ReducedDensityMatrix()
+                obs["data"] = numpy.array(rho.data).copy()
+                obs["exc"] = None
+            except Exception as e:
+                rho, obs["data"], obs["exc"] = None, None, repr(e)[:200]
+        obs["exp"] = rec.flat()
+    obs["site"] = None if rho is None else numpy.array(rho.data).copy()
+    obs["mol"] = mol
+    reset_manager()
+    return obs
+
+
+def run_mol(chk, c, items, meta):
+    import numpy
+    from quantarhei.core.units import kB_intK
+    ctx = c.get("ctx", "none")
+    obs = mol_request(c, ctx, True)
+    n, T, mol = obs["n"], obs["T"], obs["mol"]
+    what = "Molecule.get_thermal_ReducedDensityMatrix at %r K in context %s" % (c["temp"], ctx)
     chk.count("mol")
-    try:
-        rho = mol.get_thermal_ReducedDensityMatrix()
-        d = numpy.array(rho.data)
-    except Exception as e:
-        chk.violation("molecule:exception", "%s raised %r" % (what, e), "monitor", c)
+    chk.count("mol:ctx:" + ctx)
+    chk.count("mol:T=0" if abs(T) < 1e-10 else "mol:T>0")
+    if c["mode"] is not None and c["mode"].get("shift0"):
+        chk.count("mol:displaced_ground_state")
+    xs, ys = obs["exp"]
+    msg = oracle_monitor(xs, ys)
+    if msg:
+        chk.violation("oracle:exp", msg, "monitor", c)
+    d, site = obs["data"], obs["site"]
+    if d is None:
+        chk.violation("molecule:exception", "%s raised %s" % (what, obs["exc"]), "monitor", c)
         chk.case(c, False)
         return
-    m = monitor_matrix(d, True, what)
+    m = monitor_matrix(d, True, what) or monitor_matrix(site, True, what + " (after leaving the context)")
     if m:
         chk.violation("molecule:" + m[0], m[1], "monitor", c)
     else:
-        H = mol.get_Hamiltonian()
-        w, V = numpy.linalg.eigh(numpy.array(H.data, dtype=float))
-        dd = numpy.dot(V.T, numpy.dot(d, V))
-        T = 0.0 if c["temp"] is None else c["temp"]
-        if numpy.abs(dd - numpy.diag(numpy.diag(dd))).max() > 1e-10:
+        # in the site basis: diagonal in the eigenbasis of H with Boltzmann populations; at T = 0 the lowest eigenstate
+        w, V = numpy.linalg.eigh(obs["Hsite"])
+        dd = numpy.dot(V.T, numpy.dot(site, V))
+        if abs(T) < 1e-10 and len(w) > 1 and w[1] - w[0] > 1e-9:
+            pg = float(numpy.real(dd[0, 0]))
+            dev = float(numpy.abs(site - numpy.outer(V[:, 0], V[:, 0])).max())
+            if dev > 1e-9:
+                chk.violation("molecule:zeroT", "%s: the T = 0 state is not the lowest eigenstate of the Hamiltonian (deviation %g, "
+                              "population of the lowest eigenstate %g)" % (what, dev, pg), "monitor", c)
+        elif numpy.abs(dd - numpy.diag(numpy.diag(dd))).max() > 1e-10:
             chk.violation("molecule:defining_basis", "%s: not diagonal in the eigenbasis of the Hamiltonian" % what, "monitor", c)
         else:
-            mm = monitor_transformed_populations(numpy.real(numpy.diag(dd)), w, 0, T, kB_intK, what)
+            mm = monitor_transformed_populations(numpy.real(numpy.diag(dd)), w, 0, 0.0 if abs(T) < 1e-10 else T, kB_intK, what)
             if mm:
                 chk.violation("molecule:" + mm[0], mm[1], "monitor", c)
+        if ctx != "none":
+            ref = mol_request(c, "none", False)["site"]
+            if ref is not None and finite(ref):
+                dev = float(numpy.abs(ref - site).max())
+                if dev > 1e-9:
+                    chk.violation("molecule:context_dependent", "%s: the state differs from the one requested outside any context by %g "
+                                  "(site basis)" % (what, dev), "monitor", c)
+    # ---- correspondence (Model.C14 request OpenSys); dense transformations above n = 6 are covered by the monitors only
+    if n <= 6 and finite(d) and float(numpy.abs(numpy.imag(d)).max()) <= 1e-13:
+        hexc = obs["hexc"]
+        if abs(T) < 1e-10:
+            tab = "[]"
+        else:
+            tab = table_lit(exact_args([fr(x) for x in hexc], fr(kB_intK) * fr(T)), xs, ys)
+        if tab is None:
+            chk.violation("correspondence:molecule:oracle_calls", "%s: numpy.exp was not called once per state" % what,
+                          "correspondence", c, found_input=False)
+        else:
+            eye = numpy.eye(n)
+            lit = "(mkCase OpenSys %d%%nat 0%%nat %s %s %s %s %s %s %s %s %s %s %s, Some %s)" % (
+                n, cm.qlit(kB_intK), cm.qlit(T), qmatl(obs["Hcur"]), qlist(hexc), qlist([0.0] * n),
+                qmatl(eye), qmatl(eye), qmatl(obs["U"]), qmatl(obs["U1"]), qmatl(numpy.zeros((n, n))), tab, qmatl(numpy.real(d)))
+            items.append(lit)
+            cc = dict(c)
+            cc["req"] = "molecule"
+            meta.append(cc)
     try:
         ri = mol.get_excited_density_matrix(condition="delta")
         m = monitor_matrix(numpy.array(ri.data), False, "Molecule.get_excited_density_matrix(delta) at %r K" % (c["temp"],))
@@ -687,7 +776,7 @@ def run(chk, cases):
             elif c["kind"] == "dm":
                 run_dm(chk, c, dm_items, dm_meta)
             elif c["kind"] == "mol":
-                run_mol(chk, c)
+                run_mol(chk, c, dm_items, dm_meta)
             elif c["kind"] == "agg_rdm":
                 run_agg_rdm(chk, c)
         except Exception as e:
@@ -758,6 +847,10 @@ def corpus_dm():
                             (sg, 5.0, "thermal", "none"), (s, 1.0, "weak", "H"), (s, 300.0, "strong", "XH")]:
         out.append({"kind": "dm", "sys": sy, "temp": T, "req": rq, "ctx": cx})
     out.append({"kind": "agg_rdm", "sys": sg})
+    # exactly T = 0: displaced ground-state surface (lowest eigenstate is not basis state 0); request inside an unrelated context
+    for (sh, cx) in [(0.4, "none"), (0.0, "X"), (0.4, "XH"), (0.0, "H")]:
+        out.append({"kind": "mol", "e": [0.0, 10000.0], "mode": {"freq": 300.0, "hr": 0.3, "nmax": 2, "shift0": sh}, "temp": None,
+                    "dip": [1.0, 0.0, 0.0], "ctx": cx, "seed": 7})
     return out
 
 
@@ -765,7 +858,8 @@ def main():
     chk = cm.Check(PID, args.tier)
     chk.rule = ("direct calls: blocks of 1-8 states, absolute energies 0..+-60000 1/cm, spreads 1..5000 1/cm, exact degeneracies, "
                 "T in {0, 1e-6 .. 1e4 K}; aggregates: 2-4 molecules, optional ground-state energy offset, optional mode, one- or "
-                "two-exciton band, requests thermal/weak/strong/impulsive x contexts none/H/X/XH/HX. Non-trivial: block of >= 2 "
+                "two-exciton band, requests thermal/weak/strong/impulsive x contexts none/H/X/XH/HX; molecules with 2-3 electronic states, optional "
+                "mode with displaced ground-state surface, T = 0 exactly (no bath) or 0..2000 K, contexts none/X/H/XH. Non-trivial: block of >= 2 "
                 "states (direct), every end-to-end case; distinct by canonical input")
     chk.assumptions = [
         "numpy.exp is an oracle: ex 0 = 1, 0 <= ex, monotone (monitored on every recorded call); it may underflow to 0",
@@ -780,7 +874,7 @@ def main():
         cases = [rep["input"]] if isinstance(rep.get("input"), dict) and "kind" in rep["input"] else []
     else:
         r = cm.rng(PID)
-        npop, nsys, per, nmol = (360, 14, 16, 30) if args.tier == "quick" else (3000, 60, 25, 300)
+        npop, nsys, per, nmol = (360, 14, 16, 60) if args.tier == "quick" else (3000, 60, 25, 500)
         cases = list(CORPUS) + corpus_dm()
         cases += [gen_pop(r, k) for k in range(npop)]
         dmc = gen_dm_cases(r, nsys, per)
